@@ -10,8 +10,8 @@ except OSError:
     pass
 rows = []
 for p in ["C%02d" % i for i in range(1, 21)]:
-    for v in ("A", "B"):
-        sd = "/tmp/wt-%s/SEEDED" % p
+    for v in ("A", "B", "C", "D"):
+        sd = "/tmp/%s-%s/SEEDED" % ("wt" if v in "AB" else "w2", p)
         patch = os.path.join(sd, v + ".patch.diff")
         if not os.path.exists(patch):
             continue
